@@ -35,6 +35,61 @@ fn smoke_challenge() {
     kani::cover!(true);
 }
 
+
+/// Case split on a symbolic `usize` in `0..=3`: the continuation `$f` is symbolically
+/// executed once per value with a *literal* first argument, so that every loop bound and
+/// every transcript position that depends on it is a constant in CBMC's symbolic execution
+/// (a symbolic-length `Vec` makes the STROBE position symbolic and symex does not finish:
+/// 20 min / 8.6 GB without reaching the solver).  The quantifier is unchanged: the value
+/// itself is `kani::any()`, all arms are in one proof, nothing is enumerated outside CBMC.
+macro_rules! split4 {
+    ($x:expr, $f:ident $(, $a:expr)*) => {
+        match $x {
+            0 => $f(0 $(, $a)*),
+            1 => $f(1 $(, $a)*),
+            2 => $f(2 $(, $a)*),
+            _ => $f(3 $(, $a)*),
+        }
+    };
+}
+
+const LA: [UnitA; 3] = [UnitA(K271(3)), UnitA(K271(4)), UnitA(K271(11))];
+const RA: [UnitA; 3] = [UnitA(K271(5)), UnitA(K271(6)), UnitA(K271(13))];
+
+/// Body of the C08 ipp harness for literal `l`, `r`; `n` is symbolic.
+fn ipp_body(r: usize, l: usize, n: usize, t0: &Transcript) {
+    let proof = InnerProductProof::<UnitA>::verif_from_parts(LA[..l].to_vec(), RA[..r].to_vec(), K271(7), K271(9));
+    let mut t = t0.clone();
+    // `n` stays symbolic on the rejecting side; on the accepting side it is replaced by the
+    // literal it is equal to (so the domain separator bytes and the `1..n` loop are constant).
+    let res = if n == (1usize << l) {
+        proof.verif_verification_scalars(1usize << l, &mut t)
+    } else {
+        proof.verif_verification_scalars(n, &mut t)
+    };
+    match &res {
+        Ok((u_sq, u_inv_sq, s)) => {
+            assert!(l == r);
+            assert!(n == 1usize << l);
+            assert!(u_sq.len() == l);
+            assert!(u_inv_sq.len() == l);
+            assert!(s.len() == n);
+        }
+        Err(_) => {}
+    }
+    kani::cover!(res.is_ok() && l == 3, "Ok reachable with three rounds");
+    kani::cover!(res.is_ok() && l == 0, "Ok reachable with zero rounds");
+    kani::cover!(res.is_err() && l == r, "Err reachable with equal lengths (wrong n)");
+    kani::cover!(res.is_err() && l < r, "Err reachable with |L| < |R|");
+    kani::cover!(res.is_err() && l > r, "Err reachable with |L| > |R|");
+    core::mem::forget(t);
+    core::mem::forget(res);
+    core::mem::forget(proof);
+}
+fn ipp_split_r(l: usize, r: usize, n: usize, t0: &Transcript) {
+    split4!(r, ipp_body, l, n, t0)
+}
+
 /// C08 `c08_ipp_scalars_any_lengths`
 ///
 /// Property: C08 (hostile proofs never panic), inner-product level.
@@ -59,24 +114,7 @@ fn c08_ipp_scalars_any_lengths() {
     let r: usize = kani::any();
     let n: usize = kani::any();
     kani::assume(l <= 3 && r <= 3 && n <= 9);
-    let la = [UnitA(K271(3)), UnitA(K271(4)), UnitA(K271(11))];
-    let ra = [UnitA(K271(5)), UnitA(K271(6)), UnitA(K271(13))];
-    let proof = InnerProductProof::<UnitA>::verif_from_parts(la[..l].to_vec(), ra[..r].to_vec(), K271(7), K271(9));
-    let mut t = Transcript::new(b"ipp");
-    let res = proof.verif_verification_scalars(n, &mut t);
-    match &res {
-        Ok((u_sq, u_inv_sq, s)) => {
-            assert!(l == r);
-            assert!(n == 1usize << l);
-            assert!(u_sq.len() == l);
-            assert!(u_inv_sq.len() == l);
-            assert!(s.len() == n);
-        }
-        Err(_) => {}
-    }
-    kani::cover!(res.is_ok() && l == 3, "Ok reachable with three rounds");
-    kani::cover!(res.is_err(), "Err reachable");
-    core::mem::forget(t);
-    core::mem::forget(res);
-    core::mem::forget(proof);
+    let t0 = Transcript::new(b"ipp");
+    split4!(l, ipp_split_r, r, n, &t0);
+    core::mem::forget(t0);
 }
